@@ -119,6 +119,27 @@ var checks = map[string]*check{
 		rule:        "each generated operation instance is executed under every aliasing partition of (z,x,y) (5) / (z,x,y,u) (13) and three receiver histories (fresh, previously 400-800 digits, previously special without buffer); all variants are validated against the buffer-free specification, so they agree with each other",
 		assumptions: commonAssumptions,
 	},
+	"C11": {
+		id: "C11", models: []model{}, trace: "Trace_Core", batch: 4,
+		gen:         func(g *gen.G, thor bool) []gen.Program { return gen.Roundtrip(g, n(thor, 700, 20000)) },
+		rule:        "x -> Text(e|E|g|G|p|b|f, -1) / MarshalText / json.Marshal -> Parse / UnmarshalText / json.Unmarshal into a receiver of sufficient precision, for mantissas of 1..5000 digits (trailing and interior zero words), exponents over the whole int32 range (moderate for f), both signs, zeros, infinities; TLC checks the produced string against the specification's layout (exactly MinPrec digits) and the re-read value against x",
+		assumptions: commonAssumptions,
+		req:         []string{"TextParse:fmt:e", "TextParse:fmt:g", "TextParse:fmt:p", "TextParse:fmt:b", "TextParse:fmt:f", "TextParse:text:e", "TextParse:inf", "TextParse:zero"},
+	},
+	"C12": {
+		id: "C12", models: []model{}, trace: "Trace_Core", batch: 4,
+		gen:         func(g *gen.G, thor bool) []gen.Program { return gen.Parse(g, n(thor, 2500, 60000)) },
+		rule:        "Parse/SetString/UnmarshalText/json.Unmarshal/ParseDecimal/Scan of structured literals (up to thousands of digits, radix point anywhere, leading/trailing zeros, delicate digits after the precision, decimal exponents at and beyond the int32/int64 limits, binary exponents incl. unrepresentable ones), the Inf spellings and near misses, a corpus of separator/prefix edge cases, mutated literals (insert/delete/replace one or two bytes) and random strings over the grammar's alphabet, bases {0,2,8,10,16}, six modes, precision 0 and > 0; math/big's Float.Parse runs on the same strings as a second implementation of the recogniser",
+		assumptions: append(append([]string{}, commonAssumptions...), "binary exponents between 20000 and 10^10 in magnitude are left free (DESIGN 3.6)"),
+		req:         []string{"Parse:accepted", "Parse:rejected", "Parse:base10", "Parse:base16", "Parse:base2", "Parse:base8", "Parse:binary", "Parse:decimal", "Parse:inf", "Parse:tie-up", "Parse:tie-down", "SetString:accepted", "UnmarshalText:rejected", "Scan:accepted"},
+	},
+	"C13": {
+		id: "C13", models: []model{}, trace: "Trace_Core", batch: 4,
+		gen:         func(g *gen.G, thor bool) []gen.Program { return gen.Format(g, n(thor, 1200, 30000)) },
+		rule:        "Text/Append/String/MarshalText/Format of (a) exactly representable k/2^m values under ToNearestEven, for which strconv.FormatFloat / fmt.Sprintf on the float64 are logged as a second implementation of the layout specification, (b) zeros (also with a stale exponent) and infinities, (c) arbitrary Decimals with delicate digits at the requested position under all six modes; formats e,E,f,g,G,p,b x precisions -1..40; verbs e,E,f,F,g,G,v x flags + space 0 - x widths x precisions",
+		assumptions: append(append([]string{}, commonAssumptions...), "%+v and the # flag are excluded (DESIGN 3.6); values within 47 of the top of the exponent range are excluded from explicit-precision formatting"),
+		req:         []string{"Text:e", "Text:f", "Text:g", "Text:p", "Text:b", "Text:ref", "Format:ref", "Format:0", "Format:-", "Format:+", "Format:width", "Text:shortest", "Text:prec", "Text:zero", "Text:inf"},
+	},
 	"C14": {
 		id: "C14", models: []model{}, trace: "Trace_Core", batch: 4,
 		gen:         func(g *gen.G, thor bool) []gen.Program { return gen.Conv(g, n(thor, 1500, 40000)) },
